@@ -214,6 +214,27 @@ where
     }
 }
 
+#[cfg(feature = "verif")]
+impl<K, V> TxIndex<K, V>
+where
+    K: Key + Copy,
+    V: Value + Clone,
+{
+    /// Snapshot of the whole index: (entries, blocks oldest-first with their keys, tip, size).
+    #[allow(clippy::type_complexity)]
+    pub fn verif_snapshot(&self) -> (Vec<(K, V)>, Vec<(BlockHash, Vec<K>)>, u32, usize) {
+        (
+            self.index.iter().map(|(k, v)| (*k, v.clone())).collect(),
+            self.blocks
+                .iter()
+                .map(|b| (*b, self.tx_in_block.get(b).cloned().unwrap_or_default()))
+                .collect(),
+            self.tip,
+            self.size,
+        )
+    }
+}
+
 impl<K: std::fmt::Debug + Key, V: std::fmt::Debug + Value> fmt::Display for TxIndex<K, V> {
     fn fmt(&self, f: &mut fmt::Formatter) -> fmt::Result {
         write!(
